@@ -171,7 +171,7 @@ class C18(Check):
             return CaseResult(real, model, mon, '', None, info_d)
         # non-vacuity of the hash-path theorem: are its hypotheses (regular geometry, layout, descriptor room) met by this image?
         hyp = drv.ask(sexp(['save-hyp', geom['kind'], f]))
-        info_d['theorem-hypotheses:' + ('all-met' if hyp.startswith('ok') and all(x.endswith(':gld') for x in hyp.split()[1:]) else hyp[:40])] = 1
+        info_d['theorem-hypotheses:' + ('all-met' if hyp.startswith('ok') and all(x.endswith(':gldtwr') for x in hyp.split()[1:]) else hyp[:40])] = 1
         if case.get('mode') == 'lv3':
             return self.run_lv3(case, f, infos, ops, writable, real, model, sess, outs, info_d)
         refs = []
